@@ -51,8 +51,14 @@ theorem desc_kids_sublist : ∀ (rest : List Xml), (descL (rest.flatMap Xml.kids
       simpa [descL] using ih
 
 /-- nothing mergeable at or below the property child of a node -/
-def PrCleanNode (e : Xml) : Prop :=
-  ∀ c ∈ e.kids, ∀ t, e.tag? = some t → c.tag? = some ⟨t.ns, t.name ++ lit "Pr"⟩ → noMergeT c = true
+def PrCleanNode (e : Xml) : Prop := ∀ c ∈ e.kids, endsPr c.localname = true → noMergeT c = true
+
+theorem endsPr_append (n : Str) : endsPr (n ++ lit "Pr") = true := by
+  unfold endsPr lit
+  simp [List.reverse_append]
+
+theorem localname_of_tag (c : Xml) (q : QName) (h : c.tag? = some q) : c.localname = q.name := by
+  cases c <;> simp_all [Xml.tag?, Xml.localname]
 
 /-- the hypotheses on (a list of) input trees -/
 def G (l : List Xml) : Prop :=
@@ -163,17 +169,15 @@ theorem G_merged (first : Xml) (rest : List Xml) (g : G (first :: rest)) (he : f
     · intro e hemem
       rw [hd] at hemem
       rcases List.mem_cons.1 hemem with rfl | hemem
-      · intro c hc t' ht' hct
+      · intro c hc hct
         simp only [Xml.kids, List.mem_append] at hc
-        simp only [Xml.tag?, Option.some.injEq] at ht'
-        subst ht'
         rcases hc with hc | hc
-        · exact g3 (Xml.elem i p t m a tx tl ks) (List.mem_cons_self ..) c hc t rfl hct
+        · exact g3 (Xml.elem i p t m a tx tl ks) (List.mem_cons_self ..) c hc hct
         · obtain ⟨r, hr, hcr⟩ := List.mem_flatMap.1 hc
           have her : r.isElem = true := by
             cases r <;> simp_all [Xml.isElem, Xml.kids]
           have hrm : r ∈ descL rest := mem_descL_self rest r hr her
-          exact g3 r (by simp [hrm]) c hcr t (by rw [ht r hr her]; rfl) hct
+          exact g3 r (by simp [hrm]) c hcr hct
       · exact g3 e (List.mem_cons_of_mem _ (hsub.subset hemem))
 
 /-! ## fixed points -/
@@ -478,7 +482,8 @@ theorem mergeFuel_fp (cfg : PartCfg) : ∀ (f : Nat) (x y : Xml), G [x] → merg
         have hclean : ∀ x ∈ ks, (x.tag? == some ⟨t.ns, t.name ++ lit "Pr"⟩) = true → noMergeT x = true := by
           intro x hx hPx
           have hme : Xml.elem i p t m a tx tl ks ∈ descL [Xml.elem i p t m a tx tl ks] := by simp [descL, descT]
-          exact g.2.2 _ hme x hx t rfl (by simpa using hPx)
+          have htg : x.tag? = some ⟨t.ns, t.name ++ lit "Pr"⟩ := by simpa using hPx
+          exact g.2.2 _ hme x hx (by rw [localname_of_tag x _ htg]; exact endsPr_append t.name)
         have hP : TagOnly (fun k : Xml => k.tag? == some ⟨t.ns, t.name ++ lit "Pr"⟩) := by
           intro x y hxy; simp only [hxy]
         have hg : gatherPr (Xml.elem i p t m a tx tl (ks1.map M')) = gatherPr (Xml.elem i p t m a tx tl ks) := by
@@ -490,7 +495,8 @@ theorem mergeFuel_fp (cfg : PartCfg) : ∀ (f : Nat) (x y : Xml), G [x] → merg
             apply find_congr'
             intro a0 ha0
             simp only [Function.comp, (hS a0 ha0).2.tag]
-          have e3 := f4 _ hP (fun x hx hPx => noMergeT_self x (hclean x hx hPx))
+          have e3 : ks1.find? (fun k : Xml => k.tag? == some ⟨t.ns, t.name ++ lit "Pr"⟩) = ks.find? (fun k : Xml => k.tag? == some ⟨t.ns, t.name ++ lit "Pr"⟩) := by
+            rw [← List.head?_filter, ← List.head?_filter, f4 _ hP (fun x hx hPx => noMergeT_self x (hclean x hx hPx))]
           rw [e1, e3]
           cases hfd : ks.find? (fun k : Xml => k.tag? == some ⟨t.ns, t.name ++ lit "Pr"⟩) with
           | none => rfl
@@ -542,10 +548,9 @@ theorem good_of_goodTree (x : Xml) (h : goodTree x = true) : G [x] := by
     rw [beq_iff_eq] at ea eb
     rw [ea] at eb
     exact Option.some.inj eb
-  · intro e he c hc t ht hct
+  · intro e he c hc hct
     have := List.all_eq_true.1 h3 e he
     unfold prCleanNode at this
-    rw [ht] at this
     have := List.all_eq_true.1 this c hc
     rw [hct] at this
     simpa using this
